@@ -45,6 +45,7 @@ type FuncContract struct {
 	Params     []string // optional explicit parameter names (extern/iface)
 	Where      string
 	Lets       [][2]string // name, expr: ghost abbreviations usable in clauses (evaluated at entry)
+	NoSafety   string      // reason: safety (no-panic) obligations are not generated for this function
 }
 
 type PredDef struct {
@@ -72,7 +73,7 @@ type ContractDB struct {
 }
 
 var clauseKW = map[string]bool{"props": true, "requires": true, "ensures": true, "modifies": true, "loop": true, "emits": true,
-	"pure": true, "noeffect": true, "trusted": true, "params": true, "let": true, "internal": true}
+	"pure": true, "noeffect": true, "trusted": true, "params": true, "let": true, "internal": true, "nosafety": true}
 
 var topKW = map[string]bool{"func": true, "iface": true, "extern": true, "pred": true, "spec": true, "axiom": true, "lemma": true, "event": true}
 
@@ -235,6 +236,11 @@ func (db *ContractDB) parseFile(file, pkgPath string) error {
 				switch cw {
 				case "props":
 					fc.Props = strings.Fields(crest)
+				case "nosafety":
+					fc.NoSafety = crest
+					if fc.NoSafety == "" {
+						fc.NoSafety = "not claimed"
+					}
 				case "pure":
 					fc.Pure = true
 				case "noeffect":
